@@ -134,6 +134,68 @@ def _stream(n: int, o0: int, o1: int, o2: int, o3: int, t0: int, t1: int, t2: in
     return result(ok, N >= 2)
 
 
+# ---- an event whose execution ABORTS (a resolver raising something that is not a field error): that pull raises, the stream goes on with the next event
+def _aborted_events(n: int, a0: bool, a1: bool, a2: bool, a3: bool, asyncres: bool, asyncfields: bool, tick: bool) -> bool:
+    """
+    pre: 1 <= n <= 4
+    post: _
+    """
+    N = concrete_int(n, 1, 4)
+    flags = [True if a else False for a in (a0, a1, a2, a3)]
+    for i in range(N, 4):
+        if flags[i]:
+            return result(True, False)
+    AR, AF, TK = (True if asyncres else False), (True if asyncfields else False), (True if tick else False)
+    with untraced():
+        events = [{"counter": {"v": ("abort" if flags[k] else 100 + k), "w": 200 + k, "k": k}, "k": k} for k in range(N)]
+        src = Source(events, [1 if TK else 0] * N)
+        holder = [src]
+
+        def v_resolver(root, ctx, info):
+            v = root["v"]
+            if v == "abort":
+                raise ValueError("event %s cannot be processed" % root["k"])
+            return v
+
+        async def av_resolver(root, ctx, info):
+            await asyncio.sleep(0)
+            return v_resolver(root, ctx, info)
+        ev = ObjectType("Ev", [Field("v", Int, resolver=(av_resolver if AF else v_resolver)), Field("w", Int), Field("k", Int)])
+
+        def sub(root, ctx, info):
+            return holder[0]
+
+        async def asub(root, ctx, info):
+            await asyncio.sleep(0)
+            return holder[0]
+        schema = Schema(ObjectType("Query", [Field("a", Int)]), subscription_type=ObjectType("Subscription", [Field("counter", ev, subscription_resolver=(asub if AR else sub))]))
+        loop = DetLoop()
+
+        async def main():
+            rt = AsyncIORuntime(loop=loop, execute_blocking_functions_in_thread=False)
+            stream = await subscribe(schema, parse("subscription { counter { v w k } }"), runtime=rt)
+            it = stream.__aiter__()
+            out = []
+            for _ in range(N + 3):
+                try:
+                    r = await it.__anext__()
+                except StopAsyncIteration:
+                    out.append("end")
+                    break
+                except ValueError as e:
+                    out.append("raised %s" % e)
+                else:
+                    out.append((r.response().get("data"), sorted(str(e.message) for e in r.errors)))
+            return out
+        try:
+            got = loop.run_until_complete(main())
+        finally:
+            loop.close()
+        exp = [("raised event %d cannot be processed" % k) if flags[k] else ({"counter": {"v": 100 + k, "w": 200 + k, "k": k}}, []) for k in range(N)] + ["end"]
+        ok = got == exp and src.anext_calls == N + 1
+    return result(ok, any(flags[:N]) and N >= 2)
+
+
 N_EVENTS = 4 if thorough() else 3
 
 
@@ -262,6 +324,14 @@ def _refusals(r: int, asyncres: bool) -> bool:
 
 
 CONDITIONS = [
+    Cond(
+        name="aborted_events", fn=_aborted_events, quick=100, thorough=100,
+        bound="1..4 source events x every subset of events whose execution ABORTS (a resolver raising ValueError - not a field error) x sync / async subscription resolver x sync / async field resolvers x "
+              "a delay before each event: the pull for an aborted event raises that exception, every other event still yields exactly its own result in order, the stream ends when the source ends "
+              "and the source is pulled exactly n+1 times",
+        symbolic={"n,a0..a3,asyncres,asyncfields,tick": "choice"}, assumptions=["DetLoop; the consumer calls __anext__ again after an exception"],
+        witness={"n": 3, "a0": False, "a1": True, "a2": False, "a3": False, "asyncres": False, "asyncfields": False, "tick": False},
+    ),
     Cond(
         name="stream", fn=_stream, quick=150, thorough=900, per_path=60, shards_quick=16, shards_thorough=32,
         bound="every source stream of 0..3 (thorough 4) events, each event with 3 x 3 outcomes (value / null / ResolverError) for two sub-fields, 0..1 loop ticks before each of the first two events, "
